@@ -519,7 +519,7 @@ Plan gen(uint64_t seed, int tier) {
   else if (ek == 1) { family = r.pick({1, 1, 2, 255, 0}); ch = family == 1 ? (int)r.range(1, 6) : family == 2 ? r.pick({1, 4, 6}) : family == 0 ? (int)r.range(1, 2) : (int)r.range(1, 4); }
   else ch = r.pick({4, 6});
   p.ops.push_back(mkop("NEW", {kind, r.range(0, 4), ch, r.range(0, 2), family, r.range(0, 9), (int64_t)r.range(1, 1 << 30)}));
-  p.ops.push_back(mkop("SRC", {r.weighted({1, 0, 4, 2, 5, 3, 1, 1, 2, 0, 0, 1, 4}), r.pick({110, 220, 440, 1000, 3000, 7000}), r.pick({100, 300, 500, 900}), r.range(1, 1000), r.range(0, 1000)}));
+  p.ops.push_back(mkop("SRC", {r.weighted({1, 0, 4, 2, 5, 3, 1, 1, 2, 0, 0, 1, 4, 1, 1, 2}), r.pick({110, 220, 440, 1000, 3000, 7000}), r.pick({100, 300, 500, 900}), r.range(1, 1000), r.range(0, 1000)}));
   auto push_ctl = [&]() {
     int w = r.weighted({10, 2, 3, 3, 1});
     if (w == 0) p.ops.push_back(mkop("CTL", {r.range(0, 13), r.range(0, 14), (int64_t)r.range(-70000, 70000)}));
@@ -541,7 +541,7 @@ Plan gen(uint64_t seed, int tier) {
   double pctl = r.pick({0.05, 0.2, 0.5, 1.0});
   for (int i = 0; i < n; i++) {
     if (r.chance(pctl)) { int k = (int)r.range(1, 3); for (int j = 0; j < k; j++) push_ctl(); }
-    if (r.chance(0.05)) p.ops.push_back(mkop("SRC", {r.weighted({2, 0, 4, 2, 5, 3, 1, 1, 2, 0, 0, 1, 4}), r.pick({110, 220, 440, 1000, 3000, 7000}), r.pick({100, 300, 500, 900}), r.range(1, 1000), r.range(0, 1000)}));
+    if (r.chance(0.05)) p.ops.push_back(mkop("SRC", {r.weighted({2, 0, 4, 2, 5, 3, 1, 1, 2, 0, 0, 1, 4, 1, 1, 2}), r.pick({110, 220, 440, 1000, 3000, 7000}), r.pick({100, 300, 500, 900}), r.range(1, 1000), r.range(0, 1000)}));
     if (r.chance(0.1)) fidx = r.weighted({1, 1, 3, 8, 3, 2, 1, 1, 1});
     p.ops.push_back(mkop("ENC", {fidx, r.pick({1500, 1500, 1276, 400, 100}), r.range(0, 2)}));
   }
